@@ -1,4 +1,4 @@
-From CV Require Import Core.Arith Core.Reader Core.ReadOps Core.Builder Core.BuildOps.
+From CV Require Import Core.Arith Core.Reader Core.ReadOps Core.Builder Core.BuildOps Core.BuildValid.
 From Coq Require Import ExtrOcamlBasic.
 Extraction Language OCaml.
-Extraction "build_model.ml" run_build mkCfg.
+Extraction "build_model.ml" run_build mkCfg valid_message spec_root_tree.
